@@ -267,8 +267,74 @@ class OutputIteration(Spec):
         return res
 
 
-UNITS = [SeedInit(), RunSeedsFirst(), InitCopies(), OutputIteration()]
+# ------------------------------------------------------------------------------------------------------------------
+class StepProbe(Spec):
+    """a step of the fit loop: records that it ran (its own contract lives elsewhere: C03 / C05 / C19 / OutputIteration above)"""
+
+    def __init__(self, target, label):
+        self.target, self.label = target, label
+
+    def bind(self, it, args, kwargs):
+        return dict(args=args, kwargs=kwargs)
+
+    def havoc(self, cx, st):
+        cx.ghost.setdefault("steps", []).append((self.label, st["args"], st["kwargs"]))
+
+
+MS = "leaspy.algo.fit.mcmc_saem:TensorMcmcSaemAlgorithm"
+
+
+def run_iter_post(cx, env, snap, k, view):
+    g = cx.ghost
+    new = g.get("steps", [])[snap:]
+    self_, cfg = env["self"], g["cfg"]
+    want = ["iteration"] + (["output"] if cfg["om"] else []) + (["progress"] if cfg["bar"] else [])
+    res = [("iteration number = position + 1", z(self_.f["current_iteration"], "int") == k + 1),
+           ("the steps of one pass: the algorithm's iteration, then (only when an output manager is attached) its logging, then (only with "
+            "a progress bar) the bar -- nothing that belongs to the algorithm is done or skipped on account of logging",
+            z3.BoolVal([s_[0] for s_ in new] == want))]
+    its = [s_ for s_ in new if s_[0] == "iteration"]
+    if len(its) == 1:
+        res.append(("the iteration works on the model and the state of this run", z3.BoolVal(its[0][1][1] is g["model"] and its[0][1][2] is g["state"])))
+    return res
+
+
+class RunLoopLoggingNeutral(Spec):
+    """TensorMcmcSaemAlgorithm._run, the iteration loop alone (dropped: the initialisation before it and the hand-over of the fitted
+    state after it): for an arbitrary pass k, the iteration counter is k + 1 and exactly these steps run, in this order: the
+    algorithm's _iteration(model, state) once; FitOutputManager.iteration(self, model, dataset) once iff an output manager is attached;
+    the progress bar iff it is switched on.  In particular the temperature update, the samplers and the maximisation step are not
+    called from here: what the algorithm computes is the same with and without logging."""
+    target = MS + "._run"
+    fragment = (lambda t: t.startswith("for self.current_iteration in"), lambda t: t.startswith("for self.current_iteration in"))
+    loops = {("TensorMcmcSaemAlgorithm._run", 0): LoopSpec(
+        lambda cx, env, k, view: [], modifies=lambda cx, env: [(env["self"], "current_iteration")],
+        iter_pre=lambda cx, env, k, view: len(cx.ghost.get("steps", [])), iter_post=run_iter_post)}
+
+    def configs(self):
+        return [dict(om=o, bar=b) for o in (False, True) for b in (False, True)]
+
+    def setup(self, cx, cfg):
+        om = SymObj(resolve(FOM), {}, label="output_manager") if cfg["om"] else None
+        n_iter = cx.int("n_iter")
+        self_ = SymObj(resolve(MS), dict(algo_parameters={"n_iter": n_iter, "progress_bar": cfg["bar"]}, output_manager=om, current_iteration=0))
+        model, dataset, state = SymObj(object, {}, label="model"), SymObj(object, {}, label="dataset"), SymObj(object, {}, label="state")
+        cx.ghost.update(cfg=cfg, model=model, state=state)
+        return dict(env={"self": self_, "model": model, "dataset": dataset, "state": state}, n_iter=n_iter)
+
+    def pre(self, cx, st):
+        return [("accepted settings", z(st["n_iter"]) >= 1)]
+
+    def post(self, cx, st, out):
+        return [("the loop ends", z3.BoolVal(True))]
+
+
+UNITS = [SeedInit(), RunSeedsFirst(), InitCopies(), OutputIteration(), RunLoopLoggingNeutral()]
 CALLEES = [RunProbe()] + [HelperProbe(h) for h in HELPERS]
+CALLEES += [StepProbe(MS + "._iteration", "iteration"), StepProbe(FOM + ".iteration", "output"),
+            StepProbe("leaspy.algo.base:IterativeAlgorithm._display_progress_bar", "progress"),
+            StepProbe("leaspy.algo.algo_with_annealing:AlgorithmWithAnnealingMixin._update_temperature", "temperature"),
+            StepProbe(MS + "._maximization_step", "maximization")]
 ASSUMPTIONS = ["C11: a generator seeded with s produces a sequence that depends on s only (contract of random / numpy / torch)",
                "C11: the helpers of FitOutputManager (print / State.save / matplotlib plotting) are call-site probes; State.save reads through "
                "State.__getitem__ (C01: values unchanged); that matplotlib draws nothing from the three generators is observed by the stand-in",
